@@ -228,7 +228,13 @@ def run_cases(cases, drv, tier):
 def corpus():
     r1 = tsprop.RELAYS[0]
     new = lambda sid, ans, tgt='example.com:80': ['strm', '%d NEW 0 %s SOURCE_ADDR=127.0.0.1:%d PURPOSE=USER' % (sid, tgt, 5000 + sid), [], ans]
+    r2 = tsprop.RELAYS[1]
     return [
+        # a circuit that was a good answer once (BUILT) is answered again after Tor has started to extend it further (it is not BUILT
+        # any more, and not closed either): reported, nothing sent; once it is BUILT again it is a good answer again
+        {'snap_c': ['5 BUILT %s PURPOSE=GENERAL' % r1], 'snap_s': [], 'pre': [],
+         'ops': [['att', 1], ['ack', True], new(1, 'c0'), ['ack', True], ['circ', '5 EXTENDED %s,%s PURPOSE=GENERAL' % (r1, r2), []], new(2, 'c0'),
+                 new(3, 'later'), ['ans', 2, 'c0'], ['circ', '5 BUILT %s,%s PURPOSE=GENERAL' % (r1, r2), []], new(4, 'c0'), ['ack', True]]},
         {'snap_c': ['5 BUILT %s PURPOSE=GENERAL' % r1, '8 LAUNCHED PURPOSE=GENERAL'], 'snap_s': [], 'pre': [],
          'ops': [['att', 1], ['ack', True], new(1, 'n'), new(2, 'd'), new(3, 'c0'), new(4, 'c1'), new(6, 'x'), new(7, 'r'), new(9, 'n', 'relay1.exit:80'),
                  new(11, 'later'), ['circ', '5 CLOSED %s PURPOSE=GENERAL REASON=FINISHED' % r1, []], ['ans', 7, 'c0'], ['att', 2], ['att', 1], ['att', None], new(1, 'n')]},
